@@ -5,8 +5,7 @@ CONSTANTS
   KeySet = {}
   ValSet = {}
   HashVals = {}
-  IntKeys = {}
-  NegKeys = {}
+  RKeys = {}
   ShardCounts = {}
 CONSTRAINT Mark
 POSTCONDITION Accepted
